@@ -1,6 +1,7 @@
 package rdb
 
 import (
+	"bytes"
 	"encoding/binary"
 	"io"
 	"math"
@@ -217,15 +218,32 @@ func (r *RdbReader) readFull(p []byte) error {
 }
 
 func (r *RdbReader) ReadBytesP(n int) []byte {
-	p := make([]byte, n)
-	err := r.readFull(p)
+	p, err := r.ReadBytes(n)
 	panicIfErr(err)
 	return p
 }
 
+// a length above this is not allocated up front : in a damaged file it may be any 32 or 64 bit number
+const maxReadBytesPrealloc = 64 * 1024 * 1024
+
 func (r *RdbReader) ReadBytes(n int) ([]byte, error) {
-	p := make([]byte, n)
-	return p, r.readFull(p)
+	if n < 0 {
+		return nil, errors.Errorf("invalid length : %d", n)
+	}
+	if n <= maxReadBytesPrealloc {
+		p := make([]byte, n)
+		return p, r.readFull(p)
+	}
+	// grow with the data that is really there
+	var buf bytes.Buffer
+	m, err := io.CopyN(&buf, r, int64(n))
+	if err == nil && m != int64(n) {
+		err = io.ErrUnexpectedEOF
+	}
+	if err == io.EOF {
+		err = io.ErrUnexpectedEOF
+	}
+	return buf.Bytes(), errors.WithStack(err)
 }
 
 func (r *RdbReader) ReadUint8P() uint8 {
@@ -318,6 +336,10 @@ func lzfDecompress(in []byte, outlen int) (out []byte, err error) {
 			err = errors.Errorf("decompress exception: %v", x)
 		}
 	}()
+	// one control byte (plus at most two more) yields at most 264 bytes
+	if outlen < 0 || outlen > len(in)*264 {
+		return nil, errors.Errorf("decompress length %d is impossible for %d compressed bytes", outlen, len(in))
+	}
 	out = make([]byte, outlen)
 	i, o := 0, 0
 	for i < len(in) {
